@@ -940,3 +940,108 @@ benign("c01-table-dict-inlined", ["C01", "C07", "C13"], [(C, '''class AddressCom
             "type": ["tag"],
             "required": False,
         },''')])
+
+# --------------------------------------------------------------------------- C03
+seeded("p10-result-rewritten-in-parse", ["C03"], "P10", [(P, '''            if self.__curcommand is not None:
+                raise ParseError(
+                    "end of script reached while semicolon or block expected"
+                )
+''', '''            if self.__curcommand is not None:
+                raise ParseError(
+                    "end of script reached while semicolon or block expected"
+                )
+            self.result = [c for c in self.result if c.name != "stop" or c is self.result[-1]]
+''')], "drops all but the last stop; verdict unchanged")
+seeded("p10-children-inserted-front", ["C03"], "P10", [(C, "        self.children += [child]\n", "        self.children.insert(0, child)\n")], "order of commands in a block reversed; boolean tests unaffected")
+seeded("p10-arguments-popped", ["C03"], "P10", [(C, '''    def complete_cb(self):
+        """Completion callback
+
+        Called when a command is considered as complete by the parser.
+        """
+        pass''', '''    def complete_cb(self):
+        """Completion callback
+
+        Called when a command is considered as complete by the parser.
+        """
+        self.arguments.pop("comparator", None)''')])
+seeded("p11-record-after-walk", ["C03"], "P11", [(P, '''        if not self.__curcommand.parent:
+            # collect current amount of hash comments for later
+            # parsing into names and desciptions
+            self.__curcommand.hash_comments = self.hash_comments
+            self.hash_comments = []
+            self.result += [self.__curcommand]
+
+        if onlyrecord:
+            # We are done
+            return
+''', '''        if onlyrecord:
+            # We are done
+            return
+'''), (P, '''            if condition:
+                self.__set_expected("comma", "right_parenthesis")
+            break
+''', '''            if condition:
+                self.__set_expected("comma", "right_parenthesis")
+            break
+        if self.__curcommand is not None and not self.__curcommand.parent:
+            self.__curcommand.hash_comments = self.hash_comments
+            self.hash_comments = []
+            self.result += [self.__curcommand]
+''')])
+seeded("p11-comments-not-reset", ["C03", "C11"], {"C03": "P11", "C11": "N3"}, [(P, '''            self.__curcommand.hash_comments = self.hash_comments
+            self.hash_comments = []
+''', '''            self.__curcommand.hash_comments = self.hash_comments
+''')], "every filter inherits the names of all previous ones")
+seeded("g7-positional-overwrite", ["C03"], "G7", [(C, '''                if "tag" not in curarg["type"]:
+                    # positional optional argument: do not fill it twice
+                    self.nextargpos = pos + 1
+''', '')], "pre-fix behaviour, suite passes")
+seeded("g3-store-under-type", ["C03", "C01", "C20"], "G4", [(C, '''                    if add:
+                        self.arguments[curarg["name"]] = avalue
+                break
+
+            condition: bool''', '''                    if add:
+                        self.arguments[curarg["type"][0]] = avalue
+                break
+
+            condition: bool''')])
+seeded("g3-store-stripped", ["C03", "C01", "C20", "C04"], {"C03": "G4", "C01": "G4", "C20": "G4", "C04": "S2"}, [(C, '''                if add:
+                    self.arguments[curarg["name"]] = avalue
+                break''', '''                if add:
+                    self.arguments[curarg["name"]] = avalue.strip() if atype == "tag" else avalue
+                break''')])
+seeded("t3p-reassign-drops", ["C03"], "T3'", [(C, '''        if condition:
+            self.arguments["list-of-flags"] = self.arguments.pop("variable-list")
+            self.rargs_cnt = 1''', '''        if condition:
+            self.arguments["list-of-flags"] = self.arguments.pop("variable-list")
+            self.rargs_cnt = 1
+        else:
+            self.arguments.pop("variable-list", None)''')], "hasflag \"v\" \"f\" { loses the variable list at `{`")
+seeded("g5-surplus-accepted", ["C01", "C20"], "G5", [(C, '''        if self.iscomplete(atype, avalue) and self.nextargpos >= len(
+            self.args_definition
+        ):
+            return False
+''', '''        if self.iscomplete(atype, avalue) and self.nextargpos >= len(
+            self.args_definition
+        ):
+            return False
+'''), (C, '''            pos += 1
+        else:
+            # no remaining slot accepts this argument
+            return False
+''', '''            pos += 1
+''')], "`keep \"x\";` accepted")
+seeded("t5-keep-flags-unreachable", ["C01", "C20"], "T5", [(C, '''        if self.iscomplete(atype, avalue) and self.nextargpos >= len(
+            self.args_definition
+        ):
+            return False
+''', '''        if self.iscomplete(atype, avalue):
+            return False
+''')], "pre-fix behaviour")
+benign("c03-append-forms", ["C03", "C01", "C02", "C13"], [(P, "            self.result += [self.__curcommand]\n", "            self.result.append(self.__curcommand)\n"), (C, "        self.children += [child]\n", "        self.children.append(child)\n")])
+benign("c03-up-record-only-renamed-flag", ["C03", "C01"], [(P, '''        if onlyrecord:
+            # We are done
+            return
+''', '''        if onlyrecord is True:
+            return
+''')])
